@@ -21,7 +21,7 @@ def rows_full(ta, rank: int) -> List[Dict[str, Any]]:
     for t in df[cols].itertuples(index=False):
         out.append({"id": hta.ival(t[0]), "ts": hta.ival(t[1]), "dur": hta.ival(t[2]), "pid": hta.ival(t[3]), "tid": hta.ival(t[4]),
                     "stream": hta.ival(t[5]), "corr": hta.ival(t[6]), "link": hta.ival(t[7]), "name": st[int(t[8])], "cat": st[int(t[9])],
-                    "bw": hta.scaled(t[10], 64)})
+                    "bw": hta.scaled(t[10], 4096)})
     return out
 
 
@@ -38,7 +38,7 @@ def counters_cfg(rng: random.Random, tier: str) -> gen.GenCfg:
         unlinked_head=rng.choice([0, 0, 1, 2, 3]), bwd_thread=rng.random() < 0.2,
         max_children=rng.choice([3, 4]),
         corr_stride=rng.choice([100, 0, 0]), p_unlisted_launch=rng.choice([0.0, 0.15]),
-        big_vocab=rng.random() < 0.2,
+        big_vocab=rng.random() < 0.2, p_mem_as_kernel=rng.choice([0.0, 0.2]),
         corr_base=rng.choice([100, 100, 1, 0]),          # correlation ids may start at 0 (a valid id, not "missing")
     )
 
@@ -51,7 +51,7 @@ class C14(Prop):
     rule = ("seeded generator: launches and kernel starts interleaved on 1-3 streams with start = launch start allowed (kdelay 0), memcpy/"
             "memset copies with dyadic bandwidths incl. zero-length copies, 1-3 ranks requested in random subsets; non-trivial iff a "
             "launch and an activity of the same stream share a timestamp or a zero-length copy exists")
-    assumptions = ["WellFormed (re-evaluated by TLC); bandwidths in generated files are multiples of 1/4 so that x64 scaling is exact",
+    assumptions = ["WellFormed (re-evaluated by TLC); bandwidths in generated files are dyadic (multiples of 2^-12) so that x4096 scaling is exact",
                    "counter events are read back from the written *_with_counters file by magic bytes (the tool writes gzip data under a .json name)"]
 
     def gen_case(self, rng, k, tier):
@@ -79,7 +79,7 @@ class C14(Prop):
                         {"id": int(i), "ts": hta.ival(t[0]), "pid": hta.ival(t[1]), "tid": hta.ival(t[2]), "key": hta.ival(t[3]), "val": clip(hta.ival(t[4]))}
                         for i, t in zip(qs[r].index.tolist(), qs[r][["ts", "pid", "tid", "stream", "queue_length"]].itertuples(index=False))]
                     bwser[r] = [] if r not in bws else [
-                        {"ts": hta.ival(t[0]), "pid": hta.ival(t[1]), "key": str(t[2]), "val": hta.scaled(t[3], 64)}
+                        {"ts": hta.ival(t[0]), "pid": hta.ival(t[1]), "key": str(t[2]), "val": hta.scaled(t[3], 4096)}
                         for t in bws[r][["ts", "pid", "name", "memory_bw_gbps"]].itertuples(index=False)]
                 # beyond the listed property (DESIGN.md section 5, "beyond"): time spent at or above a queue length, derived from the series
                 blocked: Dict[int, List[Dict[str, int]]] = {r: [] for r in req}
@@ -110,7 +110,7 @@ class C14(Prop):
                             if name == "Queue Length":
                                 ceq.append({"ts": hta.ival(e["ts"]) - base, "pid": hta.ival(e["pid"]), "sid": hta.ival(e["id"]), "val": clip(hta.ival(val)), "name": e["name"]})
                             else:
-                                cebw.append({"ts": hta.ival(e["ts"]) - base, "pid": hta.ival(e["pid"]), "sid": -1, "val": hta.scaled(val, 64), "name": e["name"]})
+                                cebw.append({"ts": hta.ival(e["ts"]) - base, "pid": hta.ival(e["pid"]), "sid": -1, "val": hta.scaled(val, 4096), "name": e["name"]})
                     obs["ranks"].append({"rank": r, "file": file_entries(case, r), "rows": rows[r], "q": qser[r], "bw": bwser[r], "ceq": ceq, "cebw": cebw, "blocked": blocked[r]})
             except Exception as ex:
                 obs["err"] = hta.exc_str(ex)
